@@ -53,6 +53,9 @@ def elem(I, ref, o, idx: VInt):
         o.meta["elems"][key] = e
         I.path.assumption("dict.items() / set iteration over a finite-universe container: each item is a present key (with its value); "
                           "distinctness and coverage of the enumeration are not used")
+    if e is None and o.meta.get("elem_factory") is not None:
+        e = (o.meta["elem_factory"](idx), idx)
+        o.meta["elems"][key] = e
     if e is None:
         if o.meta["elem_type"] == "opaque":
             raise Unsupported("element access on an opaque list")
